@@ -233,6 +233,7 @@ pub fn scenarios(thorough: bool) -> Vec<SubsScenario> {
 		},
 		SubsScenario { name: String::from("try-send-and-closed"), conns: vec![vec![Subscribe(0), Unsub(0)]], scripts: vec![vec![Accept, TrySend, AwaitClosed, IsClosed, TrySend]], stop: false, mask: mask_harness_only, buffer: 16, max_subs: 16 },
 		SubsScenario { name: String::from("return-close-message-vs-unsubscribe"), conns: vec![vec![Subscribe(0), Unsub(0)]], scripts: vec![vec![Accept, Send, ReturnMsg]], stop: false, mask: mask_sub_points, buffer: 16, max_subs: 16 },
+		SubsScenario { name: String::from("accept-cancelled-under-backpressure"), conns: vec![vec![Call, Subscribe(0), Call]], scripts: vec![vec![AcceptCancellable, ReturnErr]], stop: false, mask: mask_all_server, buffer: 1, max_subs: 16 },
 		SubsScenario { name: String::from("tiny-buffer"), conns: vec![vec![Subscribe(0), Call, Unsub(0)]], scripts: vec![vec![Accept, Send, Send, Send, IsClosed]], stop: false, mask: mask_harness_only, buffer: 1, max_subs: 16 },
 	];
 	if thorough {
